@@ -119,6 +119,9 @@ fn inner(prop: &str, mut t: Tape, rep: &mut WorldReport) {
         },
     );
     let source = program.source();
+    if std::env::var("VERIF_DUMP_SOURCE").is_ok() {
+        eprintln!("{source}");
+    }
     let lowered = match guarded(|| crate::front::lower_all(&source)) {
         Ok(Ok(x)) => x,
         Ok(Err(e)) => {
@@ -243,6 +246,7 @@ fn inner(prop: &str, mut t: Tape, rep: &mut WorldReport) {
             }
         }
         let ctx = format!("resolution {ri} of `{}`", txspec.name);
+        crate::rsim::COLLATERAL_IS_A_REGULAR_INPUT.with(|c| c.set(txspec.collateral.is_none() && txspec.inputs.iter().any(|i| i.name == "collateral")));
         // the arguments may reach the resolver the way a client sends them: as JSON text decoded by
         // the service boundary (interop::from_json); the oracles keep judging against the intended values
         let mut wire_args = plan.args.clone();
